@@ -269,6 +269,13 @@ def allAvail : SatTable.Avail := ⟨fun _ => true, fun _ _ => true, fun _ => tru
   fun _ => true, fun _ => true⟩
 def hasDefect_unsatisfiable (ms : Ms) : Bool := !SatTable.satEx allAvail ms
 
+/-- `allow_sigless_branch`, semantically: some canonical satisfaction of the script uses no
+signature at all — the table has a satisfaction when NO signature is available (every
+preimage, raw key and lock being available) -/
+def noSigAvail : SatTable.Avail := ⟨fun _ => false, fun _ _ => true, fun _ => true, fun _ => true,
+  fun _ => true, fun _ => false⟩
+def hasDefect_siglessSem (ms : Ms) : Bool := SatTable.satEx noSigAvail ms
+
 /-- a taproot output's script tree: BIP 341 allows leaf depths up to 128, every leaf is a
 tapscript -/
 def tapTreeOK (F : Facts) (depths : List Nat) (leaves : List Ms) : Bool :=
